@@ -129,6 +129,7 @@ fn worker_main(args: &[String]) -> i32 {
     world::warm_up();
 
     let mut cases = 0u64;
+    let mut hung_worlds = 0u32;
     let mut execs = 0u64;
     let mut events = 0u64;
     let mut sim_ns = 0u64;
@@ -195,6 +196,11 @@ fn worker_main(args: &[String]) -> i32 {
             }
         }
         if let Some(v) = &outcome.violation {
+            if v.detail.contains("hung=true") {
+                // a world that spins without touching the seam costs a full watchdog period: a few of them are
+                // proof enough, the rest of this worker's slice stays unexplored rather than taking hours
+                hung_worlds += 1;
+            }
             let key = format!("{}|{}", v.class, serde_json::to_string(&v.features).unwrap());
             let n = violation_counts.entry(key).or_insert(0);
             *n += 1;
@@ -205,6 +211,9 @@ fn worker_main(args: &[String]) -> i32 {
             samples.push(json!({"index": index, "case": case, "outcome": summarize_outcome(&outcome)}));
         }
         index += workers;
+        if hung_worlds >= 2 {
+            break;
+        }
     }
 
     let result = json!({
